@@ -75,7 +75,7 @@ impl Check for C03 {
         }
         if run % 30_000 == 17 {
             // one giant block (>= 65 536 children): limits and capacities at sizes beyond 16 bits
-            return vmgen::gen_giant(g);
+            return vmgen::gen_giant_nth(g, run / 30000);
         }
         if run % 700 == 349 {
             // a long execution (1000..=30000 steps) of a self-re-creating loop
